@@ -11,7 +11,7 @@ vars == <<i, last>>
 
 JResp(r) == [frames |-> [k \in 1..Len(r.frames) |-> [fields |-> r.frames[k].fields, bin |-> r.frames[k].bin]], err |-> r.err]
 JOut(o) == [k \in 1..Len(o) |-> Out(o[k].t, JResp(o[k].resp))]
-JAbs(a) == [k \in 1..Len(a) |-> [r |-> JResp(a[k].r), list |-> a[k].list]]
+JAbs(a) == [k \in 1..Len(a) |-> [r |-> JResp(a[k].r), list |-> a[k].list, junk |-> a[k].junk]]
 
 VI(r, prop, msg) == <<prop, msg, "">>
 Tags(r) == IF r.has_abs THEN {"C03"} ELSE IF r.wellformed_cut THEN {"C10"} ELSE {"C09"}
@@ -25,7 +25,7 @@ CaseViols(r) ==
       v1 == IF okRef THEN {} ELSE {VI(r, p, "outcomes of receive differ from the reference meaning of the byte stream") : p \in Tags(r)}
       v2 == IF r.has_abs THEN
                LET abs == JAbs(r.abs)
-                   enc == Cat([k \in 1..Len(abs) |-> Encode(abs[k].r, abs[k].list)]) IN
+                   enc == Cat([k \in 1..Len(abs) |-> EncodeJ(abs[k].r, abs[k].list, abs[k].junk)]) IN
                (IF enc # r.stream THEN {<<"HARNESS", "stream is not the encoding of its abstract responses", "">>} ELSE {})
                \cup (IF out = [k \in 1..Len(abs) |-> Out("resp", abs[k].r)] \o <<Out("clean", NoResp)>> THEN {}
                      ELSE {VI(r, "C03", "well-formed server output was not decoded into exactly the responses the server encoded")})
